@@ -172,7 +172,9 @@ func embeddings(tier string) [][]string {
 	single := [][]string{{"P3"}, {"C"}, {"A"}}
 	out := [][]string{{}}
 	if tier == "quick" {
-		return append(out, single...)
+		// P9: the package clause stays on its single-digit row, every row after it goes to row 11 or beyond (the
+		// boundary shifts T<k> move the package clause along; the thorough tier has P10 for this)
+		return append(append(out, single...), []string{"P9"})
 	}
 	alpha := []string{"P1", "P3", "P10", "T1", "C", "A"}
 	for _, a := range alpha {
